@@ -260,7 +260,7 @@ pub struct CodeG<P> {
 	pub local_variables: Vec<LocalVarG<P>>,
 	/// union of all LocalVariableTypeTable attributes, sorted
 	pub local_variable_types: Vec<LocalVarTypeG<P>>,
-	/// StackMapTable; `None` = no such attribute
+	/// StackMapTable; `None` = no such attribute or one without entries (the JVMS treats both alike, 4.7.4)
 	pub frames: Option<Vec<FrameG<P>>>,
 	pub visible_type_annotations: Vec<CodeTypeAnnotationG<P>>,
 	pub invisible_type_annotations: Vec<CodeTypeAnnotationG<P>>,
